@@ -57,15 +57,15 @@ def parseNode (bs : Bytes) : Outcome (Option (Node × Bytes)) :=
     if ty = 1 then
       if sub = 1 then
         match readN 2 r with
-        | .error _ => .exit          -- ParseHardwareDevicePath has no error result: log.Fatalf
+        | .error _ => .err           -- parseHardwareDevicePath: error (the exported wrapper would log.Fatal)
         | .ok (x, r') => .ok (some (.pci h (byteAt x 0) (byteAt x 1), r'))
       else .ok (some (.nil, r))
     else if ty = 2 then
       if sub = 1 then
         match readN 8 r with
-        | .error _ => .exit
+        | .error _ => .err
         | .ok (x, r') => .ok (some (.acpi h (x.take 4) (x.drop 4), r'))
-      else if sub = 2 then .exit     -- "Not implemented ACPIDevicePath type": log.Fatalf
+      else if sub = 2 then .err      -- expanded ACPI node: "not implemented" error
       else .ok (some (.nil, r))
     else if ty = 4 then
       if sub = 1 then
@@ -89,11 +89,11 @@ def parseNode (bs : Bytes) : Outcome (Option (Node × Bytes)) :=
     else if ty = 3 then
       if sub = 5 then
         match readN 2 r with
-        | .error _ => .exit
+        | .error _ => .err
         | .ok (x, r') => .ok (some (.usb h (byteAt x 0) (byteAt x 1), r'))
       else if sub = 10 then
         match readN 16 r with
-        | .error _ => .exit
+        | .error _ => .err
         | .ok (_, r') => .ok (some (.nil, r'))     -- vendor node is read and dropped (returns nil)
       else .ok (some (.nil, r))
     else .ok none
